@@ -233,6 +233,21 @@ func c17Case(t *rapid.T, extreme bool) {
 		if len(k.vals) == 0 {
 			t.Skip("empty source")
 		}
+		// a light sketch: every weight scaled down by a power of two (exactly), e.g. what is left after a long decay.
+		// Every tolerance below is relative to the total weight: nothing may depend on its absolute magnitude.
+		if !extreme && !(exact && mag < 1e-100) && rapid.IntRange(0, 5).Draw(t, "light") == 0 {
+			exps := []int{40, 60, 100, 300, 700}
+			if exact {
+				exps = exps[:3] // (the exact sum must stay clear of the subnormal range, where its own rounding is absolute)
+			}
+			f := math.Ldexp(1, -rapid.SampledFrom(exps).Draw(t, "lightexp"))
+			if err := src.Reweight(f); err != nil {
+				t.Fatalf("C17: Reweight(%v): %v", f, err)
+			}
+			k.scale(f)
+			cl.logf("Reweight(%v)", f)
+			cl.label("weights:light")
+		}
 		W := k.total()
 		helper := &skUT{bud: bud}
 		before := helper.fullObs(src, k, sc)
